@@ -11,7 +11,7 @@ from . import core
 from .effects import Effects, MutRec
 from .model import FuncInfo, Model
 
-FLOORS = {"modules": 25, "functions": 140, "call_sites": 600, "api_roots": 13}
+FLOORS = {"modules": 20, "functions": 100, "call_sites": 400, "api_roots": 13}
 
 
 @dataclass
